@@ -191,6 +191,7 @@ type Disk struct {
 	FaultHit        *Op
 	faultKindHit    OpKind
 	FaultOps        int  // faultable ops seen so far
+	NoLog           bool // do not record the op log (engines that only need the volatile view)
 	FaultReads      bool // also count list/load as faultable (OpNote kinds "list","load")
 }
 
@@ -211,6 +212,9 @@ func NewDisk(mount string, st *State) *Disk {
 }
 
 func (d *Disk) logOp(o Op) {
+	if d.NoLog {
+		return
+	}
 	if Clock != nil {
 		o.Stamp = Clock()
 	}
@@ -355,7 +359,9 @@ func (h *Handle) WriteAt(p []byte, off int64) (int, error) {
 			h.ino.data = nd
 		}
 		copy(h.ino.data[off:], q)
-		d.logOp(Op{Kind: OpWrite, Ino: h.ino.id, Off: off, Data: append([]byte(nil), q...)})
+		if !d.NoLog {
+			d.logOp(Op{Kind: OpWrite, Ino: h.ino.id, Off: off, Data: append([]byte(nil), q...)})
+		}
 	}
 	switch d.fault(OpWrite) {
 	case FaultClean:
